@@ -22,6 +22,7 @@ SimNext ==
   \/ \E w \in W : CDequeue(w) /\ Tag("R", w)
   \/ \E w \in W : CDisc(w) /\ Tag("R", w)
   \/ (CEnterSel \/ CNone \/ CProcess \/ CAfter \/ CExitEarly) /\ UNCHANGED hist
+  \/ CSweep /\ Tag("W", 0)
   \/ ProcExit /\ Tag("E", 0)
   \/ \E w \in W : CPrint /\ np'[w] # np[w] /\ Tag("P", w)
 SimSpec == SimInit /\ [][SimNext]_svars
